@@ -372,15 +372,8 @@ def _r4(ctx):
                 node = list(d.values())[0][0]
                 ctx.decide(ok, "C17-R4", node, rel, q, "%s.unitcell_lengths and .unitcell_angles assigned together" % base, "",
                            "only %s is assigned on `%s`: the cell becomes incomplete" % (sorted(d), base))
-    # zero-box / None setter clears both
-    s = ctx.py.func(TRAJ, "Trajectory.unitcell_vectors.setter")
-    first_if = [n for n in s.body if isinstance(n, ast.If)]
-    ok = False
-    if first_if:
-        t = src(first_if[0].test)
-        b = " ".join(src(x) for x in first_if[0].body)
-        ok = "vectors is None" in t and "self._unitcell_lengths = None" in b and "self._unitcell_angles = None" in b and "return" in b
-    ctx.decide(ok, "C17-R4", s, TRAJ, "Trajectory.unitcell_vectors.setter", "None / zero box clears lengths and angles", "", "the no-cell branch does not clear both fields")
+    # the unitcell_vectors setter evaluated (sa/tensym.py): None / an all-zero box clears both fields; a box sets both, from the same conversion
+    _vectors_setter_by_evaluation(ctx)
     hv = ctx.py.func(TRAJ, "Trajectory._have_unitcell.getter")
     t = src(hv)
     ctx.decide("self._unitcell_lengths is not None and self._unitcell_angles is not None" in t, "C17-R4", hv, TRAJ, "Trajectory._have_unitcell.getter",
@@ -899,3 +892,55 @@ def _r4_slice_by_evaluation(ctx, sl):
                 ctx.violated("C17-R4", sl, TRAJ, "Trajectory.slice", what, "array operations do not fit: %s" % e)
             except TUnsupported as e:
                 ctx.undecided("C17-R4", sl, TRAJ, "Trajectory.slice", what, "not evaluable: %s" % e)
+
+
+def _vectors_setter_by_evaluation(ctx):
+    from ..tensym import TenSym, Ten, Obj, Raised
+    from ..pysym import Unsupported as PUnsupported
+    sfn = ctx.py.func(TRAJ, "Trajectory.unitcell_vectors.setter")
+    q = "Trajectory.unitcell_vectors.setter"
+    pname = [a_.arg for a_ in sfn.args.args][1]
+
+    def run(vectors, n_frames=2):
+        me = Obj(tag="traj", _unitcell_lengths="OLD-L", _unitcell_angles="OLD-A", n_frames=n_frames, _lenient=True)
+        conv = {}
+
+        def b2la(ev, call):
+            args = [ev.ex(a_) for a_ in call.args]
+            conv["args"] = args
+            conv["out"] = tuple(Ten.sym(nm, (n_frames,)) for nm in ("a", "b", "c", "alpha", "beta", "gamma"))
+            return conv["out"]
+        ts = TenSym({}, models={"box_vectors_to_lengths_and_angles": b2la, "ensure_type": lambda ev, c: ev.ex(c.args[0])})
+        ts.run_fn(sfn, **{"self": me, pname: vectors})
+        return me, conv
+    ev0 = TenSym({})
+    try:
+        for what, vec in (("None", None), ("an all-zero box", Ten.full((2, 3, 3), ev0.lift(0)))):
+            me, conv = run(vec)
+            ctx.decide(me._unitcell_lengths is None and me._unitcell_angles is None and "args" not in conv, "C17-R4", sfn, TRAJ, q, "None / zero box clears lengths and angles" if vec is None else "an all-zero box clears lengths and angles", "",
+                       "assigning %s leaves lengths = %r, angles = %r: the no-cell state does not clear both fields" % (what, me._unitcell_lengths if not isinstance(me._unitcell_lengths, Ten) else "an array", me._unitcell_angles if not isinstance(me._unitcell_angles, Ten) else "an array"))
+        vec = ev0.to_ten([[[3, 0, 0], [0, 4, 0], [0, 0, 5]], [[2, 0, 0], [1, 4, 0], [1, -1, 5]]])        # a concrete box: whether it is "all zero" is a fact, not a case split
+        me, conv = run(vec)
+        ok = "out" in conv
+        why = "box_vectors_to_lengths_and_angles is not used"
+        if ok:
+            rows = [ev0.getitem(vec, (slice(None), k_, slice(None))) for k_ in range(3)]
+            ok = len(conv["args"]) == 3 and all(isinstance(x_, Ten) and ev0.first_difference(x_, r_) is None for x_, r_ in zip(conv["args"], rows))
+            why = "the three cell vectors handed to the conversion are not value[:, 0, :], value[:, 1, :], value[:, 2, :]"
+        if ok:
+            L, A = me._unitcell_lengths, me._unitcell_angles
+            wantL = [conv["out"][k_].data[f_] for f_ in range(2) for k_ in range(3)]
+            wantA = [conv["out"][3 + k_].data[f_] for f_ in range(2) for k_ in range(3)]
+            ok = isinstance(L, Ten) and isinstance(A, Ten) and L.shape == (2, 3) and A.shape == (2, 3) and all((x_ - y_).n.is_zero() for x_, y_ in zip(L.data, wantL)) and all((x_ - y_).n.is_zero() for x_, y_ in zip(A.data, wantA))
+            why = "lengths / angles stored are not (a, b, c) / (alpha, beta, gamma) of the conversion, one row per frame"
+        ctx.decide(ok, "C17-R4", sfn, TRAJ, q, "a box sets lengths = (a, b, c) and angles = (alpha, beta, gamma) of one conversion, per frame", "", why)
+        # a box for another number of frames is refused
+        try:
+            run(ev0.to_ten([[[3, 0, 0], [0, 4, 0], [0, 0, 5]]] * 3))
+            ctx.violated("C17-R4", sfn, TRAJ, q, "a box for another number of frames is refused", "cell vectors of 3 frames are accepted by a trajectory of 2 frames")
+        except Raised:
+            ctx.holds("C17-R4", sfn, TRAJ, q, "a box for another number of frames is refused", "")
+    except Raised as e:
+        ctx.violated("C17-R4", sfn, TRAJ, q, "unitcell_vectors setter", "a valid assignment is refused: %s" % (e.exc or e))
+    except PUnsupported as e:
+        ctx.undecided("C17-R4", sfn, TRAJ, q, "unitcell_vectors setter", "not evaluable: %s" % e)
